@@ -17,7 +17,7 @@ ASSUMPTIONS = [
     "the dual-norm bound is taken over the internal (scaled) multipliers of the iterates accepted so far, excluding the start",
 ]
 TIERS = {"quick": {"worlds": 2000, "wall": 150, "limit": 90.0}, "thorough": {"worlds": 40000, "wall": 1700, "limit": 200.0}}
-GATES = ("nontrivial", "runs.rho_changed", "policy.DualNorm", "policy.Constant", "policy.ParetoDecrease", "policy.DualEquilibration", "policy.ObjectiveFilter", "policy.LagrangianFilter")
+GATES = ("nontrivial", "resolved.runs", "runs.rho_changed", "policy.DualNorm", "policy.Constant", "policy.ParetoDecrease", "policy.DualEquilibration", "policy.ObjectiveFilter", "policy.LagrangianFilter")
 
 
 def generate(rng, seed, index, tier):
@@ -33,7 +33,7 @@ def generate(rng, seed, index, tier):
         kw["rho"] = float(10.0 ** int(rng.integers(-13, 2)))
     kw["iteration_limit"] = int(rng.choice([10, 40, 150], p=[0.3, 0.5, 0.2]))
     kw = gen.quiet_params(kw)
-    return gen.base_world(seed, ID, index, spec, x0, y0, kw, case={"faulted": bool(rng.random() < 0.25), "pts_seed": int(rng.integers(0, 2**31))})
+    return gen.base_world(seed, ID, index, spec, x0, y0, kw, case={"resolve": bool(rng.random() < 0.3), "faulted": bool(rng.random() < 0.25), "pts_seed": int(rng.integers(0, 2**31))})
 
 
 def _nontrivial(ex, bump):
